@@ -12,10 +12,10 @@ fn duck_path() -> PathBuf {
     std::env::var("DSMC_DUCK").map(PathBuf::from).unwrap_or_else(|_| PathBuf::from("/verif/harness/target-cli/debug/duck"))
 }
 
-struct ProcOut {
-    code: Option<i32>,
-    stdout: String,
-    stderr: String,
+pub(crate) struct ProcOut {
+    pub(crate) code: Option<i32>,
+    pub(crate) stdout: String,
+    pub(crate) stderr: String,
 }
 
 /// Runs the executable to its end, or kills it after `LIMIT_S` seconds (then `code` is None and
@@ -23,7 +23,7 @@ struct ProcOut {
 /// cannot block on a full pipe.
 const LIMIT_S: u64 = 20;
 
-fn run_proc(exe: &Path, args: &[&str], cwd: &Path) -> Result<ProcOut, String> {
+pub(crate) fn run_proc(exe: &Path, args: &[&str], cwd: &Path) -> Result<ProcOut, String> {
     use std::sync::atomic::{AtomicU64, Ordering};
     static N: AtomicU64 = AtomicU64::new(0);
     let n = N.fetch_add(1, Ordering::SeqCst);
@@ -173,6 +173,14 @@ fn write_inc_files(inc: &Path) {
     std::fs::write(inc.join("twice_inside.ds"), format!("!include_files {}\n!include_files {}\n", p("helper.ds"), p("helper.ds"))).expect("write");
     std::fs::write(inc.join("broken.ds"), "echo \"unterminated\n").expect("write");
     std::fs::write(inc.join("selfish.ds"), format!("!include_files {}\n", p("selfish.ds"))).expect("write");
+    // relative paths: resolved against the directory of the including file, wherever duck is started
+    let _ = std::fs::create_dir_all(inc.join("sub"));
+    std::fs::write(inc.join("sub").join("deep.ds"), "!include_files ../helper.ds\necho RUNS deep\n").expect("write");
+    std::fs::write(inc.join("sub").join("upper.ds"), "X = set 1\n").expect("write");
+    std::fs::write(inc.join("rel_root.ds"), "!include_files ./helper.ds\necho RUNS first\n").expect("write");
+    std::fs::write(inc.join("rel_root_deep.ds"), "!include_files ./sub/deep.ds ./other.ds\necho RUNS first\n").expect("write");
+    std::fs::write(inc.join("rel_root_upper.ds"), "!include_files ./sub/upper.ds\necho RUNS first\n").expect("write");
+    std::fs::write(inc.join("rel_root_missing.ds"), "echo RUNS first\n!include_files ./sub/nothing.ds\n").expect("write");
 }
 
 /// the directory of helper files a case text refers to, if any
@@ -484,6 +492,51 @@ pub fn worker(w: &mut Worker) {
             }
         }
     }
+    // files with relative includes, started from a directory that is not theirs (a file of the same
+    // relative name exists there too, clean where the real one is not and the other way round)
+    {
+        let inc = dir.join("inc");
+        write_inc_files(&inc);
+        let elsewhere = dir.join("elsewhere");
+        let _ = std::fs::create_dir_all(elsewhere.join("sub"));
+        std::fs::write(elsewhere.join("sub").join("upper.ds"), "x = set 1\n").expect("write");
+        std::fs::write(elsewhere.join("helper.ds"), "echo RUNS the wrong helper\nnosuchcommand\n").expect("write");
+        for (root, lint_ok) in [("rel_root.ds", true), ("rel_root_deep.ds", true), ("rel_root_upper.ds", false), ("rel_root_missing.ds", false)] {
+            let file = inc.join(root).to_string_lossy().to_string();
+            for cwd in [&dir, &elsewhere, &inc] {
+                if !w.take() {
+                    continue;
+                }
+                let cj = json!({"kind": "relative-include", "root": root, "cwd": cwd.file_name().map(|x| x.to_string_lossy().to_string())});
+                w.begin(|| cj.clone());
+                let runs = (run_proc(&duck, &[&file], cwd), run_proc(&me, &["libref", "file", &file], cwd));
+                let lints = (run_proc(&duck, &["-l", &file], cwd), run_proc(&duck, &["--lint", &file], cwd));
+                w.add_transitions(4);
+                match (runs, lints) {
+                    ((Ok(d), Ok(l)), (Ok(l1), Ok(l2))) => {
+                        let lib_ok = l.code == Some(0);
+                        let expect_out = if lib_ok { l.stdout.clone() } else { format!("{}Error: {}\n", l.stdout, l.stderr) };
+                        if (d.code == Some(0)) != lib_ok || d.stdout != expect_out {
+                            w.fail("relative-include:run-differs", &format!("{} from {:?}: duck exit {:?} output {:?}, library {} output {:?} error {:?}", root, cwd, d.code, d.stdout, if lib_ok { "succeeded" } else { "failed" }, l.stdout, l.stderr), cj);
+                        } else if lint_ok && !lib_ok {
+                            w.fail("harness:relative-include", &format!("{} is meant to run: {:?}", root, l.stderr), cj);
+                        } else if (l1.code == Some(0)) != lint_ok || (l2.code == Some(0)) != lint_ok {
+                            w.fail(
+                                if lint_ok { "lint:rejected-a-clean-file" } else { "lint:accepted-a-bad-file" },
+                                &format!("lint of {} from {:?}: exit {:?} / {:?}, output {:?}, expected {}", root, cwd, l1.code, l2.code, l1.stdout, if lint_ok { "acceptance" } else { "rejection" }),
+                                cj,
+                            );
+                        } else if l1.stdout.contains("RUNS") || l2.stdout.contains("RUNS") {
+                            w.fail("lint:script-was-run", &format!("lint of {} ran it: {:?}", root, l1.stdout), cj);
+                        } else {
+                            w.pass(true, hash64(&("relative-include", root, lib_ok)));
+                        }
+                    }
+                    other => w.fail("harness:spawn", &format!("{:?}", other.0 .0.err()), cj),
+                }
+            }
+        }
+    }
     // version / help
     for arg in ["--version", "--help", "-h"] {
         if !w.take() {
@@ -531,6 +584,14 @@ pub fn replay(case: &Value) -> Result<String, String> {
                 run_proc(&duck, &[form, text], &dir)?
             }
         }
+        "relative-include" => {
+            let inc = dir.join("inc");
+            write_inc_files(&inc);
+            let file = inc.join(case["root"].as_str().unwrap_or("rel_root.ds")).to_string_lossy().to_string();
+            let a = run_proc(&duck, &[&file], &dir)?;
+            let b = run_proc(&duck, &["-l", &file], &dir)?;
+            ProcOut { code: a.code, stdout: format!("{}\nlint exit {:?}: {}", a.stdout, b.code, b.stdout), stderr: String::new() }
+        }
         "lint" => {
             let f = dir.join("lint.ds");
             std::fs::write(&f, case["text"].as_str().unwrap_or("")).map_err(|e| e.to_string())?;
@@ -558,7 +619,7 @@ pub fn crash_sig(_case: &Value, kind: &str) -> String {
     kind.to_string()
 }
 
-pub const RULE: &str = "57 scripts (succeeding, printing, failing by crash / unknown command / missing label / assert, exit with no value, 0, 3, -1, 255, 256, 257, 512, -256, 65536, i32::MAX, i32::MIN, abc, ' 3', a value beyond i32, every parse error kind, pre-processor print and missing include, output of child processes interleaved with the script's own, exit_on_error at top level, in a function and inside a script-implemented command) x invocation form {file argument, -e text, --eval text}: the duck executable built from /repo's working tree is run as a subprocess and compared with the library run by the harness in a second subprocess (default Env): exit status 0 exactly when the library run succeeds; stdout equals the library's stdout, followed on failure by 'Error: <display of the library error>'. Lint: label x command x output each in {absent, lower-case, Capitalised, mIxed_1, non-ASCII upper-case} x {parsable, with an unparsable later line} x {-l, --lint} (thorough: the line at the end, at the start and in the middle of the file): accepted exactly when the file parses and the three spellings are lower-case, never runs the script, prints 'Error:' on rejection. --version, --help, -h: exit 0 and the documented content. Thorough tier in addition: `exit N` for every N in -600..=600, and every script of 1..4 lines over a pool of 14 lines (printing, assigning, soft error, exit_on_error, failing command, unknown command, exit / exit 2 / exit 256, failed assert, forward goto, unterminated function, unparsable line, pre-processor print) closed by a label line. Scale cases (file form): a loop printing 5000 (thorough 100000) lines, a script file of that many lines, the same failing / not parsing on its last line (output and message must match to the byte). Every subprocess is killed after 20 s (reported as a violation when it is duck that does not exit)";
+pub const RULE: &str = "57 scripts (succeeding, printing, failing by crash / unknown command / missing label / assert, exit with no value, 0, 3, -1, 255, 256, 257, 512, -256, 65536, i32::MAX, i32::MIN, abc, ' 3', a value beyond i32, every parse error kind, pre-processor print and missing include, output of child processes interleaved with the script's own, exit_on_error at top level, in a function and inside a script-implemented command) x invocation form {file argument, -e text, --eval text}: the duck executable built from /repo's working tree is run as a subprocess and compared with the library run by the harness in a second subprocess (default Env): exit status 0 exactly when the library run succeeds; stdout equals the library's stdout, followed on failure by 'Error: <display of the library error>'. Lint: label x command x output each in {absent, lower-case, Capitalised, mIxed_1, non-ASCII upper-case} x {parsable, with an unparsable later line} x {-l, --lint} (thorough: the line at the end, at the start and in the middle of the file): accepted exactly when the file parses and the three spellings are lower-case, never runs the script, prints 'Error:' on rejection. --version, --help, -h: exit 0 and the documented content. Thorough tier in addition: `exit N` for every N in -600..=600, and every script of 1..4 lines over a pool of 14 lines (printing, assigning, soft error, exit_on_error, failing command, unknown command, exit / exit 2 / exit 256, failed assert, forward goto, unterminated function, unparsable line, pre-processor print) closed by a label line. Scale cases (file form): a loop printing 5000 (thorough 100000) lines, a script file of that many lines, the same failing / not parsing on its last line (output and message must match to the byte). Every subprocess is killed after 20 s (reported as a violation when it is duck that does not exit). Includes: 11 files that include other files by absolute path (once, twice, diamonds, nested twice, broken, self-including) through the three run forms (against the library) and lint (accepted iff everything parses); 4 roots with relative includes started from 3 directories, one of which holds decoy files of the same relative names (run against the library; lint accepted iff the real files parse and are lower case)";
 pub const ASSUMPTIONS: &[&str] = &["scripts with time- or random-dependent output are not in the pool", "the reference is the same library linked into the harness (differential), so a defect shared by both is invisible here"];
 pub const EXHAUSTIVE: bool = true;
 pub const WALL_CAP_S: (u64, u64) = (58, 600);
